@@ -125,6 +125,10 @@ func (r *Reader) validateMimetype(zr *zip.Reader) error {
 func (r *Reader) loadChapters(zr *zip.Reader) error {
 	r.chapters = make([]*Chapter, 0, len(r.pkg.Spine))
 
+	// A spine may name the same content document any number of times: its bytes are read
+	// (and its title extracted) once and shared by the chapters that refer to it.
+	loaded := make(map[string]*Chapter)
+
 	for i, spineItem := range r.pkg.Spine {
 		// Look up in manifest
 		item, ok := r.pkg.Manifest[spineItem.IDRef]
@@ -134,6 +138,17 @@ func (r *Reader) loadChapters(zr *zip.Reader) error {
 
 		// Resolve href relative to OPF location
 		href := r.resolveHref(item.Href)
+
+		if first, ok := loaded[href]; ok {
+			r.chapters = append(r.chapters, &Chapter{
+				ID:      item.ID,
+				Index:   i,
+				Href:    href,
+				Content: first.Content,
+				Title:   first.Title,
+			})
+			continue
+		}
 
 		// Read the content file
 		content, err := r.readFile(zr, href)
@@ -153,6 +168,7 @@ func (r *Reader) loadChapters(zr *zip.Reader) error {
 		chapter.Title = r.extractChapterTitle(content, i)
 
 		r.chapters = append(r.chapters, chapter)
+		loaded[href] = chapter
 	}
 
 	if len(r.chapters) == 0 {
